@@ -32,6 +32,9 @@ CHECKS = {
  'C17': ('model-based call-history testing (peek/next interpreter) with exhaustive histories on small streams + differential pull vs push',
          'Cursor model over the plain-iteration event list; all 3^n peek histories for streams <= 8 events and all <= 3-position histories for 9..12 events on small inputs and the corpus, sampled histories elsewhere; load(multi) and repeated load(single) must replay the same (event, span, error) story.',
          'Histories stop at the first error (I4).', '5 C17'),
+ 'C18': ('round-trip differential (std encoders -> YamlDecoder vs load_from_str) on generated texts + bounded-exhaustive byte strings x trap modes, termination observed by a process watchdog',
+         'Texts (ASCII/Latin/CJK/astral, up to ~4k chars) x 6 encodings x 6 trap modes must decode to the documents of load_from_str; every byte string of length <= 5 (quick) / <= 6 (thorough) over 10 byte values x 6 trap modes plus random / truncated / bit-flipped encodings must return, with strict => decode error on malformed input, lenient traps continuing, callbacks honoured.',
+         'std UTF-8 / UTF-16 validation defines malformedness; a hang is reported only after the culprit case alone fails to finish within the limit.', '5 C18'),
 }
 def main():
     checks = []
